@@ -48,7 +48,7 @@ PLAN = {
     "C04": {
         "mc": [MC_POLY, MC_INST, MC_EVALDEPS],
         "gen": [G("subst", "Gen_Fn_Subst.cfg")],
-        "drive": [D("subst_fn", 2000, 100000), D("inst_subst", 800, 40000), D("deps_order", 300, 5000)],
+        "drive": [D("subst_fn", 2000, 100000), D("inst_subst", 800, 40000), D("deps_order", 300, 5000), D("chain_encode", 300, 10000)],
     },
     "C05": {"mc": [MC_INST], "gen": [G("evaluate", "Gen_Inst_Evaluate.cfg", module="Gen_Inst.tla")], "drive": [D("evaluate", 2000, 100000)]},
     "C06": {"mc": [MC_INST], "gen": [G("samples", "Gen_Inst_Samples.cfg", module="Gen_Inst.tla")], "drive": [D("samples", 1000, 50000)]},
@@ -108,7 +108,7 @@ OWN = {
     "C01": {"eval_fn": "*"},
     "C02": {"arith": "*", "fn_info": "*"},
     "C03": {"partial_fn": "*", "inst_partial": "*", "commute": "*"},
-    "C04": {"subst_fn": "*", "inst_subst": "*", "deps_order": "*"},
+    "C04": {"subst_fn": "*", "inst_subst": "*", "deps_order": "*", "evaluate": ["state_dependent", "reject_iff", "objective", "constraints_bag", "state_domain"]},
     "C05": {"mc": [MC_INST], "gen": [G("evaluate", "Gen_Inst_Evaluate.cfg", module="Gen_Inst.tla")], "drive": [D("evaluate", 2000, 100000)]},
     "C06": {"mc": [MC_INST], "gen": [G("samples", "Gen_Inst_Samples.cfg", module="Gen_Inst.tla")], "drive": [D("samples", 1000, 50000)]},
     "C08": {
